@@ -42,7 +42,7 @@ META = dict(
                "(c) all one-atom strings of the table + undefined neighbours; "
                "(d) the malformation list at every slot of every (b)-sentence with <= 2 elements, deviation <= 1, nesting 1 (2 counts); "
                "public table"),
-        thorough=("(a) <= 4 symbols (4 symbols: gaps adjacent, ' ', '+'), one decoration on <= 3 symbols (3 symbols: "
+        thorough=("(a) <= 4 symbols (4 symbols: gaps adjacent or ' '), one decoration on <= 3 symbols (3 symbols: "
                   "only layouts with gaps adjacent, ' ', '+'); "
                   "(b) <= 3 elements over {H,O,Co,D}, deviation <= 2, nesting <= 2, all menus; + deviation = 3, "
                   "nesting <= 3 with reduced menus (2 counts, 1 isotope, 2 ions, 2 density tags, separators "
@@ -77,6 +77,7 @@ META = dict(
 LEX = ("H", "C", "O", "N", "S", "I", "Co", "Na", "Si", "No", "He", "Fe", "D", "T")
 GAPS6 = (None, " ", "+", " + ", " +", "+ ")          # None = adjacent in the same implicit group
 GAPS3 = (None, " ", "+")
+GAPS2 = (None, " ")
 SYMS = ("H", "O", "Co", "D")
 ISO_MENU = (1, 2, 16, 18, 59)
 ION_MENU = ("+", "-", "1+", "2+", "2-", "3+")
@@ -951,7 +952,7 @@ def _plan(tier_quick, private, jobs):
     # (a) lexical
     lex = [(1, GAPS6, "all"), (2, GAPS6, "all"), (3, GAPS6, "adjacent")]
     if not tier_quick and not private:
-        lex = [(1, GAPS6, "all"), (2, GAPS6, "all"), (3, GAPS6, "simple-gaps"), (4, GAPS3, "none")]
+        lex = [(1, GAPS6, "all"), (2, GAPS6, "all"), (3, GAPS6, "simple-gaps"), (4, GAPS2, "none")]
     for n, gapset, deco in lex:
         for firsts in ([LEX] if n == 1 else chunks(LEX, 2) if n == 2 else [(x,) for x in LEX]):
             plan.append((shard_lexical, (private, tuple(firsts), n, gapset, deco)))
